@@ -257,9 +257,17 @@ static int apply (int op)
     if (!fits && nregions () != before_regions + 1) { snprintf (vmsg, sizeof vmsg, "allocation of %d bytes: regions %d -> %d", sz, before_regions, nregions ()); return 6; }
   } else {
     int j = op - nsizes;
-    OrcProgram *p = make_prog (j);
-    OrcCompileResult r = orc_program_compile (p);
+    OrcProgram *p = make_prog (j), *a = NULL;
+    OrcCompileResult r;
     OrcCode *code;
+    /* program 1 is compiled while another program that was compiled and then reset still exists; that one is freed
+     * after the compile: what a reset released is released once, whoever owns the memory by then */
+    if (j == 1) {
+      a = make_prog (0);
+      if (ORC_COMPILE_RESULT_IS_SUCCESSFUL (orc_program_compile (a))) orc_program_reset (a);
+    }
+    r = orc_program_compile (p);
+    if (a) orc_program_free (a);
     /* program 0 is compiled a second time while it still owns the code of the first compile (no reset in between): the
      * first code object has to go back to the allocator */
     if (j == 0 && ORC_COMPILE_RESULT_IS_SUCCESSFUL (r)) r = orc_program_compile (p);
